@@ -282,8 +282,8 @@ def check_body(wname, body, src, ctx):
             if len(_CONST_CACHE) > 4000:
                 _CONST_CACHE.clear()
             k = _CONST_CACHE[src] = _const_output(on.env, apply_marks(src, on.pre, on.post).replace("§", on.suffix))
-        if k:
-            return 0      # D1 / D6
+        if False and k:
+            return 0      # D1 / D6 were repaired in /repo: no exclusion any more
     r_on = on.render(src, ctx)
     r_off = off.render(src, ctx)
     if r_on[0] == "exc" and r_off[0] == "exc":
